@@ -23,6 +23,8 @@ pub enum MountApi {
     Ok,
     Enosys,
     Eperm,
+    /// fsopen/fsconfig/fsmount refused (EPERM), open_tree still available
+    NoFsopen,
 }
 
 #[derive(Clone, Debug, PartialEq)]
@@ -66,6 +68,7 @@ impl UniCfg {
                 MountApi::Ok => "",
                 MountApi::Enosys => "+nomountapi",
                 MountApi::Eperm => "+mountapi-eperm",
+                MountApi::NoFsopen => "+nofsopen",
             },
             if self.statx_mntid { "" } else { "+nomntid" },
             if self.proc_opts.is_empty() { String::new() } else { format!("+proc[{}]", self.proc_opts) },
@@ -79,7 +82,7 @@ impl UniCfg {
     pub fn to_json(&self) -> Value {
         json!({
             "openat2": !self.no_openat2,
-            "mount_api": match self.mount_api { MountApi::Ok => "ok", MountApi::Enosys => "enosys", MountApi::Eperm => "eperm" },
+            "mount_api": match self.mount_api { MountApi::Ok => "ok", MountApi::Enosys => "enosys", MountApi::Eperm => "eperm", MountApi::NoFsopen => "nofsopen" },
             "statx_mnt_id": self.statx_mntid,
             "proc": self.proc_opts,
             "unpriv": self.unpriv,
@@ -93,6 +96,7 @@ impl UniCfg {
             mount_api: match v["mount_api"].as_str() {
                 Some("enosys") => MountApi::Enosys,
                 Some("eperm") => MountApi::Eperm,
+                Some("nofsopen") => MountApi::NoFsopen,
                 _ => MountApi::Ok,
             },
             statx_mntid: v["statx_mnt_id"].as_bool().unwrap_or(true),
@@ -554,6 +558,8 @@ struct Worker {
     pending_create: Option<(i32, Vec<u8>, Zone)>,
     op_steps: usize,
     priority: u64,
+    /// inside a harness set-up section of an operation
+    harness_section: bool,
 }
 
 pub struct Universe {
@@ -699,7 +705,7 @@ impl Universe {
             cfg,
             listener,
             workers: (0..nworkers)
-                .map(|_| Worker { tid: 0, state: WState::Running, notif: None, cur_op: None, has_job: false, pending_create: None, op_steps: 0, priority: 0 })
+                .map(|_| Worker { tid: 0, state: WState::Running, notif: None, cur_op: None, has_job: false, pending_create: None, op_steps: 0, priority: 0, harness_section: false })
                 .collect(),
             launcher_notif: None,
             pid: unsafe { libc::getpid() },
@@ -1003,7 +1009,7 @@ impl Universe {
             let n = self.workers[t].notif.unwrap();
             let nr = n.data.nr as i64;
             let mut ev = self.classify(world.as_ref(), &n, step, t);
-            let in_lib = self.workers[t].cur_op.map(|k| input.jobs[t][k].is_lib_call()).unwrap_or(false);
+            let in_lib = self.workers[t].cur_op.map(|k| input.jobs[t][k].is_lib_call()).unwrap_or(false) && !self.workers[t].harness_section;
             ev.lib = in_lib;
 
             // ---- hypercalls
@@ -1091,6 +1097,10 @@ impl Universe {
                     }
                     seam::HC_JOB_DONE => {
                         self.workers[t].has_job = false;
+                        self.workers[t].harness_section = false;
+                    }
+                    seam::HC_HARNESS => {
+                        self.workers[t].harness_section = n.data.args[2] != 0;
                     }
                     seam::HC_NEXT_JOB => {
                         // finished worker parks again
@@ -1270,6 +1280,11 @@ impl Universe {
                 match self.cfg.mount_api {
                     MountApi::Enosys => answer = Answer::Fail(libc::ENOSYS),
                     MountApi::Eperm => answer = Answer::Fail(libc::EPERM),
+                    MountApi::NoFsopen => {
+                        if nr != libc::SYS_open_tree {
+                            answer = Answer::Fail(libc::EPERM)
+                        }
+                    }
                     MountApi::Ok => {}
                 }
             }
